@@ -5,7 +5,7 @@
 //!   conc : (mode, setup ops, threads [[(op, result)]], observation at quiescence) -> check_conc
 //! An observation = all_nodes ids, all_edges (id, from, to, directed) and per node
 //! edges_of(Outgoing/Incoming) ids, out_degree, in_degree, neighbors(Outgoing/Incoming/Both) ids.
-use graph_engine::{Direction, EdgeInput, GraphEngine, GraphError, PropertyValue};
+use graph_engine::{Constraint, ConstraintTarget, ConstraintType, Direction, EdgeInput, GraphEngine, GraphError, PropertyValue, PropertyValueType};
 use nvh_common::*;
 use std::collections::HashMap;
 use std::cell::Cell;
@@ -22,11 +22,13 @@ enum Op {
     UpdateNode(u64),
     UpdateEdge(u64),
     Batch(Vec<(u64, u64, bool)>),
+    Rejected,
 }
 #[derive(Clone, Debug, PartialEq)]
 enum Res {
     Id(u64),
     Ids(Vec<u64>),
+    Rejected,
     Ok,
     NoNode(u64),
     NoEdge(u64),
@@ -42,6 +44,7 @@ impl Op {
             Op::DeleteNode(x) => format!("DeleteNode {x}"),
             Op::UpdateNode(x) => format!("UpdateNode {x}"),
             Op::UpdateEdge(e) => format!("UpdateEdge {e}"),
+            Op::Rejected => "Rejected".into(),
             Op::Batch(v) => format!("BatchCreateEdges {}", list(v.iter().map(|(f, t, d)| format!("({f}, {t}, {})", b(*d))))),
         }
     }
@@ -50,6 +53,7 @@ impl Res {
     fn coq(&self) -> String {
         match self {
             Res::Id(i) => format!("RId {i}"),
+            Res::Rejected => "RRejected".into(),
             Res::Ids(v) => format!("RIds {}", list(v.iter().map(|x| n(*x)))),
             Res::Ok => "ROk".into(),
             Res::NoNode(x) => format!("RNoNode {x}"),
@@ -63,6 +67,7 @@ fn unit(r: Result<(), GraphError>) -> Res {
         Ok(()) => Res::Ok,
         Err(GraphError::NodeNotFound(x)) => Res::NoNode(x),
         Err(GraphError::EdgeNotFound(x)) => Res::NoEdge(x),
+        Err(GraphError::ConstraintViolation { .. }) => Res::Rejected,
         Err(_) => Res::Err,
     }
 }
@@ -71,6 +76,7 @@ fn ident(r: Result<u64, GraphError>) -> Res {
         Ok(i) => Res::Id(i),
         Err(GraphError::NodeNotFound(x)) => Res::NoNode(x),
         Err(GraphError::EdgeNotFound(x)) => Res::NoEdge(x),
+        Err(GraphError::ConstraintViolation { .. }) => Res::Rejected,
         Err(_) => Res::Err,
     }
 }
@@ -90,12 +96,14 @@ fn apply(e: &GraphEngine, o: &Op, salt: u64) -> Res {
             p.insert("v".to_string(), PropertyValue::Int(salt as i64));
             unit(e.update_edge(*x, p))
         }
+        Op::Rejected => Res::Rejected,
         Op::Batch(v) => {
             let inputs: Vec<EdgeInput> = v.iter().map(|(f, t, d)| EdgeInput::new(*f, *t, "T", HashMap::new(), *d)).collect();
             match e.batch_create_edges(inputs) {
                 Ok(r) => Res::Ids(r.created_ids),
                 Err(GraphError::BatchValidationError { cause, .. }) => match *cause {
                     GraphError::NodeNotFound(x) => Res::NoNode(x),
+                    GraphError::ConstraintViolation { .. } => Res::Rejected,
                     _ => Res::Err,
                 },
                 Err(_) => Res::Err,
@@ -126,12 +134,187 @@ fn observe(e: &GraphEngine) -> String {
             nl(&nb(Direction::Both, x))
         )
     });
+    // counts and point lookups agree with the scans
+    let max_id = edges.iter().map(|x| x.id).max().unwrap_or(0) + 3;
+    let mut ok = e.count_edges() as usize == edges.len() && e.edge_count() == edges.len() && e.count_nodes() as usize == nodes.len() && e.node_count() == nodes.len();
+    for id in 1..=max_id {
+        let listed = edges.iter().find(|x| x.id == id);
+        match (e.get_edge(id), listed) {
+            (Ok(g), Some(l)) => ok &= g.from == l.from && g.to == l.to && g.directed == l.directed,
+            (Err(_), None) => {}
+            _ => ok = false,
+        }
+    }
     format!(
-        "(OB {} {} {})",
+        "(OB {} {} {} {})",
         nl(&nodes),
         list(edges.iter().map(|x| format!("({}, ER {} {} {})", x.id, x.from, x.to, b(x.directed)))),
-        list(per)
+        list(per),
+        b(ok)
     )
+}
+
+/// the model operation a call stands for: a call refused with ConstraintViolation is `Rejected`
+fn model_op(o: &Op, r: &Res) -> Op {
+    if *r == Res::Rejected { Op::Rejected } else { o.clone() }
+}
+
+fn pv(k: &Option<i64>, as_string: bool) -> HashMap<String, PropertyValue> {
+    let mut m = HashMap::new();
+    if let Some(k) = k {
+        m.insert("k".to_string(), if as_string { PropertyValue::String(format!("s{k}")) } else { PropertyValue::Int(*k) });
+    }
+    m
+}
+
+/// Sequences on an engine WITH constraints (Unique / Exists / PropertyType on edge property k, Unique /
+/// Exists on node property k): many creations, updates and batches are refused. Every call is
+/// observed; a refused call must change nothing.
+fn constrained_seq_case(r: &mut Rng, tag: &str, w: &mut CaseWriter, dist: &mut Dist) {
+    let e = GraphEngine::new();
+    let mut defs = vec![];
+    let cons: Vec<(&str, ConstraintTarget, ConstraintType)> = vec![
+        ("edge_unique_T", ConstraintTarget::EdgeType("T".into()), ConstraintType::Unique),
+        ("edge_exists_U", ConstraintTarget::EdgeType("U".into()), ConstraintType::Exists),
+        ("edge_type_all", ConstraintTarget::AllEdges, ConstraintType::PropertyType(PropertyValueType::Int)),
+        ("edge_unique_all", ConstraintTarget::AllEdges, ConstraintType::Unique),
+        ("node_unique_N", ConstraintTarget::NodeLabel("N".into()), ConstraintType::Unique),
+        ("node_exists_M", ConstraintTarget::NodeLabel("M".into()), ConstraintType::Exists),
+    ];
+    for (name, target, ct) in cons {
+        if r.chance(2, 3) {
+            let _ = e.create_constraint(Constraint { name: name.to_string(), target, property: "k".to_string(), constraint_type: ct });
+            defs.push(name);
+        }
+    }
+    let mut ops: Vec<Op> = vec![];
+    let mut items = vec![];
+    let mut descr = vec![];
+    let mut nc = 0u64;
+    let mut ec = 0u64;
+    let mut rejected = 0;
+    let len = r.range(8, 26);
+    for i in 0..len {
+        let k = if r.chance(1, 4) { None } else { Some(r.below(4) as i64) };
+        let as_string = r.chance(1, 6);
+        let ty = if r.chance(1, 2) { "T" } else { "U" };
+        let c = r.below(100);
+        let (o, res): (Op, Res) = if c < 22 || nc < 2 {
+            let label = if r.chance(1, 2) { "N" } else { "M" };
+            descr.push(format!("create_node({label},k={k:?})"));
+            (Op::CreateNode, ident(e.create_node(label, pv(&k, false))))
+        } else if c < 62 {
+            let f = r.range(1, nc + 1);
+            let t = if r.chance(1, 6) { f } else { r.range(1, nc + 1) };
+            let d = r.chance(1, 2);
+            descr.push(format!("create_edge({f},{t},{ty},k={k:?}{},{d})", if as_string { " as string" } else { "" }));
+            (Op::CreateEdge(f, t, d), ident(e.create_edge(f, t, ty, pv(&k, as_string), d)))
+        } else if c < 72 {
+            let v: Vec<(u64, u64, bool)> = (0..r.range(1, 3)).map(|_| (r.range(1, nc), r.range(1, nc), r.chance(1, 2))).collect();
+            let inputs: Vec<EdgeInput> = v.iter().map(|(f, t, d)| EdgeInput::new(*f, *t, ty, pv(&(if r.chance(1, 3) { None } else { Some(r.below(4) as i64) }), false), *d)).collect();
+            descr.push(format!("batch_create_edges({v:?},{ty})"));
+            let res = match e.batch_create_edges(inputs) {
+                Ok(x) => Res::Ids(x.created_ids),
+                Err(GraphError::BatchValidationError { cause, .. }) | Err(GraphError::BatchCreationError { cause, .. }) => match *cause {
+                    GraphError::NodeNotFound(x) => Res::NoNode(x),
+                    GraphError::ConstraintViolation { .. } => Res::Rejected,
+                    _ => Res::Err,
+                },
+                Err(GraphError::ConstraintViolation { .. }) => Res::Rejected,
+                Err(_) => Res::Err,
+            };
+            (Op::Batch(v), res)
+        } else if c < 80 {
+            let x = r.range(1, ec + 1);
+            descr.push(format!("update_edge({x},k={k:?})"));
+            (Op::UpdateEdge(x), unit(e.update_edge(x, pv(&k, as_string))))
+        } else if c < 86 {
+            let x = r.range(1, nc + 1);
+            descr.push(format!("update_node({x},k={k:?})"));
+            (Op::UpdateNode(x), unit(e.update_node(x, None, pv(&k, false))))
+        } else if c < 94 {
+            let x = r.range(1, ec + 1);
+            descr.push(format!("delete_edge({x})"));
+            (Op::DeleteEdge(x), unit(e.delete_edge(x)))
+        } else {
+            let x = r.range(1, nc + 1);
+            descr.push(format!("delete_node({x})"));
+            (Op::DeleteNode(x), unit(e.delete_node(x)))
+        };
+        match &res {
+            Res::Id(x) => {
+                if matches!(o, Op::CreateNode) { nc = nc.max(*x) } else { ec = ec.max(*x) }
+            }
+            Res::Ids(v) => ec = v.iter().copied().fold(ec, u64::max),
+            Res::Rejected => {
+                rejected += 1;
+                dist.hit(match o { Op::CreateNode => "cseq.rejected.create_node", Op::CreateEdge(..) => "cseq.rejected.create_edge", Op::Batch(_) => "cseq.rejected.batch_create_edges", Op::UpdateEdge(_) => "cseq.rejected.update_edge", Op::UpdateNode(_) => "cseq.rejected.update_node", _ => "cseq.rejected.other" });
+            }
+            _ => {}
+        }
+        let _ = i;
+        ops.push(model_op(&o, &res));
+        items.push(format!("({}, {})", res.coq(), observe(&e)));
+    }
+    dist.hit("cseq.sequences");
+    let term = format!("({}, {})", list(ops.iter().map(|o| o.coq())), list(items));
+    w.push(&term, &format!("{tag} constraints={:?} calls={:?}", defs, descr), rejected > 0);
+}
+
+/// traversal: build a graph, then traverse(start, dir, max_depth) from every node for every bound
+fn trav_case(ops: &[Op], tag: &str, w: &mut CaseWriter) {
+    let e = GraphEngine::new();
+    for (i, o) in ops.iter().enumerate() {
+        let _ = apply(&e, o, i as u64);
+    }
+    let mut nodes: Vec<u64> = e.all_nodes().iter().map(|x| x.id).collect();
+    nodes.sort();
+    let mut starts = nodes.clone();
+    starts.push(nodes.iter().max().copied().unwrap_or(0) + 4);
+    let mut qs = vec![];
+    for st in &starts {
+        for (di, d) in [Direction::Outgoing, Direction::Incoming, Direction::Both].iter().enumerate() {
+            for depth in 0..=4u64 {
+                let r = match e.traverse(*st, *d, depth as usize, None, None) {
+                    Ok(ns) => {
+                        let mut ids: Vec<u64> = ns.iter().map(|x| x.id).collect();
+                        ids.sort();
+                        format!("(Some {})", nl(&ids))
+                    }
+                    Err(_) => "None".into(),
+                };
+                qs.push(format!("({st}, {di}, {depth}, {r})"));
+            }
+        }
+    }
+    let term = format!("({}, {}, {})", list(ops.iter().map(|o| o.coq())), observe(&e), list(qs));
+    w.push(&term, &format!("{tag} traverse from every node, 3 directions, max_depth 0..4; ops={:?}", ops), true);
+}
+
+/// graphs with several routes of different length to the same node (diamonds, cycles with chords)
+fn gen_routes(r: &mut Rng) -> Vec<Op> {
+    let nn = r.range(5, 10);
+    let mut ops: Vec<Op> = (0..nn).map(|_| Op::CreateNode).collect();
+    let undirected_share = *r.pick(&[0u64, 0, 1, 3]);
+    let m = r.range(nn, 2 * nn);
+    for _ in 0..m {
+        let f = r.range(1, nn);
+        let t = r.range(1, nn);
+        ops.push(Op::CreateEdge(f, t, !r.chance(undirected_share, 6)));
+    }
+    // a long chain with shortcuts
+    for i in 1..nn {
+        if r.chance(1, 2) {
+            ops.push(Op::CreateEdge(i, i + 1, true));
+        }
+    }
+    if r.chance(1, 3) {
+        ops.push(Op::DeleteEdge(r.range(1, m)));
+    }
+    if r.chance(1, 5) {
+        ops.push(Op::DeleteNode(r.range(1, nn)));
+    }
+    ops
 }
 
 fn gen_seq(r: &mut Rng, dist: &mut Dist) -> Vec<Op> {
@@ -205,6 +388,7 @@ fn seq_case(ops: &[Op], tag: &str, w: &mut CaseWriter, dist: &mut Dist) {
             Res::NoNode(_) => "seq.result.node_not_found",
             Res::NoEdge(_) => "seq.result.edge_not_found",
             Res::Err => "seq.result.other_error",
+            Res::Rejected => "seq.result.rejected",
         });
         items.push(format!("({}, {})", res.coq(), observe(&e)));
     }
@@ -476,6 +660,33 @@ fn main() {
         seq_case(&ops, &format!("seq#{i}"), &mut seq, &mut dist);
     }
 
+    // constrained sequences (refused calls) go into the same `seq` stream
+    for i in 0..args.budget(70, 3000) {
+        constrained_seq_case(&mut rng, &format!("cseq#{i}"), &mut seq, &mut dist);
+    }
+
+    // ---------------------------------------------------------------- traversal
+    let mut trav = CaseWriter::new(&args.out, "trav");
+    {
+        // corpus: s=1 a=2 d=3 b=4 e=5 t1=6 t2=7 u1=8 u2=9; t1 and t2 each have a 3-hop and a 2-hop route
+        let mut ops: Vec<Op> = (0..9).map(|_| Op::CreateNode).collect();
+        for (x, y) in [(1, 2), (1, 3), (2, 4), (4, 6), (3, 6), (6, 8), (3, 5), (5, 7), (2, 7), (7, 9)] {
+            ops.push(Op::CreateEdge(x, y, true));
+        }
+        trav_case(&ops, "corpus two mirrored diamonds", &mut trav);
+        // the same with undirected edges and a chord
+        let mut ops2: Vec<Op> = (0..9).map(|_| Op::CreateNode).collect();
+        for (x, y) in [(1, 2), (1, 3), (2, 4), (4, 6), (3, 6), (6, 8), (3, 5), (5, 7), (2, 7), (7, 9), (8, 9)] {
+            ops2.push(Op::CreateEdge(x, y, false));
+        }
+        trav_case(&ops2, "corpus mirrored diamonds undirected", &mut trav);
+        for i in 0..args.budget(40, 1500) {
+            let ops = gen_routes(&mut rng);
+            trav_case(&ops, &format!("routes#{i}"), &mut trav);
+            dist.hit("trav.graphs");
+        }
+    }
+
     // ---------------------------------------------------------------- concurrent runs
     let mut conc = CaseWriter::new(&args.out, "conc");
     // corpus F-C05-rmw: 8 threads x 50 create_edge(hub, spoke_i)
@@ -710,7 +921,7 @@ fn main() {
         &args.out,
         json!({
             "property": "C05", "seed": args.seed, "tier": args.tier,
-            "kinds": [seq.summary(), conc.summary(), mixed.summary()],
+            "kinds": [seq.summary(), conc.summary(), mixed.summary(), trav.summary()],
             "distribution": dist.json(),
             "nontrivial_rule": "seq: a delete_node of a node with incident edges succeeded; conc: at least two threads (or the rayon branch of delete_node with > 100 incident edges); mixed: always (a concurrent creation phase followed by observed sequential deletions)",
         }),
